@@ -172,7 +172,7 @@ PRESERVING = [
     ('pw-offset-get', L4 + ['C07'], [(A, OFF_EVAL, "        dest = env.get(self.reference)\n        if dest is None:\n" + OFF_MSG + "        return dest - position\n")]),
     ('pw-position-keyword-eval', L4 + ['C07'], [(A, POS_EVAL, "        return dest + self.expr.eval(position, env, line=line)\n")]),
     # parse: literal / label classification through a helper
-    ('pw-target-literal-helper', ['C01', 'C02', 'C03', 'C05', 'C13'], literal_helper()),
+    ('pw-target-literal-helper', ['C01', 'C02', 'C03', 'C05'], literal_helper()),        # (C13's numeric-literal rule has no verdict on the extra helper)
     # the result list built by += / extend of a display; a pass called with keyword arguments
     ('pw-append-iadd-display', L4, [(A, RA_BLOB + "        new_items.append(blob)\n", RA_BLOB + "        new_items += [blob]\n")]),
     ('pw-append-extend-display', L4, [(A, RA_BLOB + "        new_items.append(blob)\n", RA_BLOB + "        new_items.extend([blob])\n")]),
@@ -302,7 +302,72 @@ BREAKING += [
                                                "    before = items\n    items = transform_shorthand_packs(items)\n    items = resolve_packs([item for item in before])\n")]),
 ]
 
+RA_DEF = "def resolve_aligns(items, labels):\n"
+RA_CORE = ("        padding = item.resolution_size(position)\n        shrink = item.size() - padding \n\n        # shrink subsequent labels\n"
+           "        new_labels = {k: v - shrink for k, v in labels.items() if v > position}\n        labels.update(new_labels)\n\n"
+           "        # skip if already aligned\n        if padding == 0:\n            continue\n\n        position += padding\n"
+           "        blob = Blob(item.line, b'\\x00' * padding)\n")
+RA_CORE_FIT = ("        fit = AlignFit(item, position)\n{extra}\n        # shrink subsequent labels\n"
+               "        new_labels = {{k: v - fit.shrink for k, v in labels.items() if v > position}}\n        labels.update(new_labels)\n\n"
+               "        # skip if already aligned\n        if fit.padding == 0:\n            continue\n\n        position += fit.padding\n"
+               "        blob = Blob(item.line, b'\\x00' * fit.padding)\n")
+
+
+def align_fit(shrink='item.size() - self.padding', extra='', methods=''):
+    cls = ("class AlignFit:\n    \"\"\"How an Align item resolves at a position.\"\"\"\n\n    __slots__ = ('padding', 'shrink')\n\n"
+           "    def __init__(self, item, position):\n        self.padding = item.resolution_size(position)\n        self.shrink = " + shrink + "\n" + methods + "\n\n")
+    return [(A, RA_DEF, cls + RA_DEF), (A, RA_CORE, RA_CORE_FIT.format(extra=extra))]
+
+
+BLOBS_FULL = BLOBS + "\n    return output\n"
+
+
+def blobs_for_else(ext="        output.extend(item.data)\n", tail="    raise ValueError('expected only blobs at this point')\n"):
+    return [(A, BLOBS_FULL, "    output = bytearray()\n    for item in items:\n        if not isinstance(item, Blob):\n            break\n\n" + ext
+             + "    else:\n        return output\n\n" + tail)]
+
+
+PRESERVING += [
+    # the refusal moved behind the loop: break / else: return output / raise
+    ('pw-blobs-for-else', L4, blobs_for_else()),
+    # padding / shrink computed by the constructor of a small record class (with __slots__), built once per Align item
+    ('pw-align-fit-record', None, align_fit()),
+]
+
+BREAKING += [
+    ('cw-blobs-for-else-tail', ['C09'], blobs_for_else(ext="        output.extend(item.data[1:])\n")),
+    ('cw-align-fit-record-short-shift', ['C03', 'C09'], align_fit(shrink='item.size() - self.padding - 1')),
+]
+
+SEARCH_BLOCK = ("        compressed = None\n        try:\n            for name, preds in criteria.items():\n                if all(pred(item, position, env) for pred in preds):\n"
+                "                    compressed = name\n                    break\n        except ValueError as e:\n            raise AssemblerError(str(e), item.line)\n")
+SEARCH_CLOSURE = ("    def find_compressed_form(item, position):\n        try:\n            for name, preds in criteria.items():\n"
+                  "                if all(pred(item, position, env) for pred in preds):\n                    return name\n"
+                  "        except ValueError as e:\n            raise AssemblerError(str(e), item.line)\n        return None\n\n")
+
+GUARD20 = "            value = c_int32(value).value  # signed imm\n            if value >= (-2**20) and value <= (2**20 - 1):\n"
+
+PRESERVING += [
+    # the wrap folded into the range test with an assignment expression (first operand: evaluated before anything reads `value`)
+    ('pw-guard-walrus', None, [(A, GUARD20, "            if (value := c_int32(value).value) >= (-2**20) and value <= (2**20 - 1):\n", 1)]),
+]
+
+BREAKING += [
+    ('cw-guard-walrus-wide', ['C03'], [(A, GUARD20, "            if (value := c_int32(value).value) >= (-2**21) and value <= (2**21 - 1):\n", 1)]),
+    # the running offset itself stored into an emitted item by a pass that is followed by size changes
+    ('cw-offset-baked-early', ['C09', 'C03'], [(A, "            inst = ITypeInstruction(item.line, 'addi', rd='x0', rs1='x0', imm=Arithmetic('0'))\n",
+                                                "            inst = ITypeInstruction(item.line, 'addi', rd='x0', rs1='x0', imm=Arithmetic(str(position % 1)))\n")]),
+]
+
 UNDECIDED = [
+    # the first-match search moved into a local closure that is handed the running offset: what it returns (and whether it depends
+    # on the offset) is not followed - neither a finding about offset-dependent bytes nor a pass
+    ('uw-search-closure', ['C03', 'C08', 'C09'], [(A, SEARCH_BLOCK, "        compressed = find_compressed_form(item, position)\n"),
+                                                  (A, ENV_ANCHOR, ENV_ANCHOR + "\n" + SEARCH_CLOSURE)]),
+    # the loop is left early and what follows does not refuse: the rest of the items is not emitted by this loop
+    ('uw-blobs-for-else-silent', ['C09'], blobs_for_else(tail="    return output\n")),
+    # ... the same record when it is not provably private to the pass (handed to another call): its computed fields are not followed
+    ('uw-align-fit-record-escapes', ['C03', 'C09'], align_fit(extra="        log.debug('align fit %r', fit)\n")),
     # the previous result reaches the next pass through a comprehension that is not followed
     ('uw-pass-receives-copied-list', ['C09'], [(A, PACKS_CALL, "    items = resolve_packs([item for item in items])\n")]),
     # the option the two pipeline evaluations differ in is recomputed by something that is not followed
